@@ -114,6 +114,38 @@ def gen_cases(tier, seed):
                                                    'bytes': rng.choice([0, 1, AG - 1, AG, AG + 1, ln // 2, ln]) % (ln + 1),
                                                    'kind': rng.choice(STREAM_KINDS), 'tag': f'FAULT-d{j}'} for j in range(rng.choice([1, 2]))]
                     cases.append(spec)
+    # a thread preempted at each statement of the progress-accounting code (and inside on_progress) while other parts run
+    from .. import windows
+
+    lines = [l for l in windows.candidate_lines() if l[2].startswith(('AggregatedProgressCallback', 'ReadFileChunk', 'StreamReaderProgress',
+                                                                      'invoke_progress_callbacks', 'GetObjectTask', 'CopyPartTask', 'InterruptReader'))]
+    AG = 256 * K
+    for line in lines:
+        for rep in range(2 if quick else 8):
+            up = not line[2].startswith(('StreamReaderProgress', 'GetObjectTask', 'CopyPartTask'))
+            big = rng.random() < 0.5
+            C = 300 * K if big else 8
+            size = rng.choice([2 * C + 5, 3 * C + 1, 4 * C])
+            if line[2].startswith('CopyPartTask'):
+                t = {'kind': 'copy', 'size': size}
+            elif up:
+                t = {'kind': 'upload', 'src': rng.choice(['path', 'seekable', 'nonseekable']), 'size': size}
+            else:
+                t = {'kind': 'download', 'dst': rng.choice(['path', 'nonseekable', 'seekable']), 'size': size}
+            cfg = dict(multipart_threshold=C, multipart_chunksize=C, max_request_concurrency=rng.choice([2, 3, 4]), num_download_attempts=3)
+            if not up and not big:
+                cfg['io_chunksize'] = 4
+            w = {'file': line[0], 'lineno': line[1], 'name': f'{line[0]}:{line[1]}:{line[2]}', 'nth': rng.randrange(0, 6), 'action': 'pause', 'wait': 0.2}
+            cases.append({'seed': rng.randrange(1 << 30), 'min_part': C, 'config': cfg, 'transfers': [t], 'body_read_sizes': [65536] if big else [3],
+                          'yield': {'p': 0.0, 'window': w}, 'plan': {'delay_p': rng.choice([0.0, 0.3])}})
+    # subscribers that are slow inside on_progress (a gate holds them until the process is quiescent) while other parts report
+    for i in range(40 if quick else 300):
+        C = rng.choice([8, 300 * K])
+        size = rng.choice([2 * C + 5, 3 * C + 1, 4 * C])
+        t = {'kind': 'upload', 'src': rng.choice(['path', 'seekable', 'nonseekable']), 'size': size}
+        cases.append({'seed': rng.randrange(1 << 30), 'min_part': C, 'transfers': [t], 'body_read_sizes': [65536] if C > 8 else [3],
+                      'config': dict(multipart_threshold=C, multipart_chunksize=C, max_request_concurrency=rng.choice([2, 3, 4])),
+                      'plan': {'gate': {'match': '/cb:on_progress', 'phase': 'before', 'policy': 'seeded', 'count': rng.choice([1, 2, 3])}}})
     rng.shuffle(cases)
     return cases
 
